@@ -367,15 +367,24 @@ func H_prec() {
 	}
 	var argv []string
 	usedFold := false
+	usedAttached := false
+	foldEq := false
 	if asOpt {
 		for _, p := range cli {
 			form := 0 // --xx=p
 			if len(p) == 0 {
 				form = 1 // --xx p (separate)
 			} else if t != tBool {
-				form = vChoice("form", 3)
+				nforms := 4
+				if check == "C07" {
+					nforms = 3 // (the attached short form is exercised under C06/C13/C15)
+				}
+				form = vChoice("form", nforms)
 				if form == 1 && p[0] == '-' {
 					form = 0
+				}
+				if form == 3 && p[0] == '=' {
+					form = 0 // -x=p is the '=' spelling of the short form: the value would be p[1:]
 				}
 				if form == 2 && usedFold {
 					form = 0 // the flag -w may occur once
@@ -391,8 +400,15 @@ func H_prec() {
 				argv = append(argv, "--xx", p)
 			case 2:
 				// folded behind a flag, value attached: everything after the letter is the value,
-				// a leading '=' included
+				// a leading '=' included (as long as the option's own matcher sees the token first)
 				argv = append(argv, "-wx"+p)
+				if len(p) > 0 && p[0] == '=' {
+					foldEq = true
+				}
+			case 3:
+				// short form with the value attached (it may contain the letter of the flag -w)
+				argv = append(argv, "-x"+p)
+				usedAttached = true
 			}
 		}
 	} else {
@@ -414,7 +430,8 @@ func H_prec() {
 		policy = []flag.ErrorHandling{flag.ContinueOnError, flag.ExitOnError, flag.PanicOnError}[vChoice("policy", 3)]
 	}
 	app.ErrorHandling = policy
-	var user bool
+	var user, wUser bool
+	var wFlag *bool
 	read := vDeclareTyped(app, t, asOpt, def, strings.Join(envNames, " "), &user)
 	var readSibling func() []vVal
 	if sibling {
@@ -425,8 +442,17 @@ func H_prec() {
 		_ = sapp
 	}
 	if asOpt {
-		app.Bool(BoolOpt{Name: "w"}) // a flag the valued option can be folded behind
+		wFlag = app.Bool(BoolOpt{Name: "w", SetByUser: &wUser}) // a flag the valued option can be folded behind
 		app.Spec = "[--xx...] [-w]"
+		if usedAttached && vChoice("flagfirst", 2) == 1 {
+			app.Spec = "[-w] [--xx...]" // the flag's matcher looks at the tokens first
+			// a fold carrying '=' after a flag (-wx=v) is read differently depending on which
+			// matcher sees the token first: outside every claim (DESIGN 4.5)
+			vAssume(!foldEq)
+		}
+		if vParamInt("specEnd") == 2 {
+			app.Spec = "[OPTIONS]" // the same occurrences through an option group
+		}
 		if vParamInt("withArg") == 1 {
 			// a positional argument that always converts follows the option values
 			app.String(StringArg{Name: "Y"})
@@ -438,8 +464,12 @@ func H_prec() {
 		}
 	} else {
 		app.Spec = "[X...]"
+		if vParamInt("specEnd") == 1 {
+			app.Spec = "-- [X...]" // options ended by the spec too: a second `--` on the command line is a value
+		}
 	}
 	ran, hooks := 0, 0
+	gotW, gotWUser := false, false
 	var got []vVal
 	gotUser := false
 	app.Before = func() { hooks++ }
@@ -448,6 +478,9 @@ func H_prec() {
 		ran++
 		got = read()
 		gotUser = user
+		if wFlag != nil {
+			gotW, gotWUser = *wFlag, wUser
+		}
 	}
 	var err error
 	var rec interface{}
@@ -528,6 +561,11 @@ func H_prec() {
 	}
 	if ran != 1 {
 		return
+	}
+	if asOpt {
+		// the flag -w is set exactly when the fold -wx<p> was written: letters inside another
+		// option's attached value are data
+		vAssert(gotW == usedFold && gotWUser == usedFold, "C15/C02: a flag was set (or marked set by the user) by a letter inside another option's attached value")
 	}
 	if len(cli) > 0 {
 		vCover("from-cli")
